@@ -24,7 +24,7 @@ fn c01_flat(u: &mut U) -> c01::Op {
     use c01::{EntryAct::*, Op};
     let t = byte(u) % 4;
     let v = (byte(u) % 50) as i64;
-    match byte(u) % 25 {
+    match byte(u) % 26 {
         0..=4 => Op::Insert(t, v),
         5 | 6 => Op::Remove(t),
         7 => Op::Take(t),
@@ -52,6 +52,7 @@ fn c01_flat(u: &mut U) -> c01::Op {
         22 => Op::InsertAt(byte(u) % 4, t, v),
         23 => Op::SetValueWhileBorrowed(t, v, byte(u) % 2 == 0),
         24 => Op::MultiWrite(t, byte(u) % 4, v),
+        25 => Op::InsertOverLeakedGuard(t, v, byte(u) % 2 == 0),
         _ => Op::Pop,
     }
 }
